@@ -269,6 +269,9 @@ theorem tab_code_relative (colrel colinc cur : Nat) :
   repeat' split
   all_goals first | omega | (have h2 := hmod2 (by omega); split at h2 <;> omega)
 
+/-- ~2,4T from column 9: the code computes 3 blanks (to column 12), the model too -/
+example : dirT_target { at_ := false, p_0 := 2, p_1 := 4, c_column_2 := 9 } = 3 ∧ tabSpaces false 2 4 9 = 3 := by decide
+
 theorem tab_code_raises_nothing (i : In) : dirT_err i = false := by
   simp [dirT_err]
 
@@ -333,6 +336,12 @@ theorem move_code_is_the_model (T : EnglishTables) (vs : List PVal) (colon atm :
         cases colon <;> cases atm <;> simp at hca h <;> (try split at h) <;> (try simp at h) <;> subst h <;>
           simp [dirMove_err, dirMove_argPos, hout, hl] <;> omega
     · simp [hn] at h
+
+/-- the hypotheses are satisfiable: ~2:* from cursor 3 of three arguments moves to 1 in the model … -/
+example : runSimple genTables .star [.num 2] true false ⟨[.int 1, .int 2, .int 3], 3, []⟩ = .ok ⟨[.int 1, .int 2, .int 3], 1, []⟩ := by
+  simp [runSimple, natParam, bind, Except.bind, pure, Except.pure]
+/-- … and in the translated code -/
+example : dirMove_argPos { paramIn [.num 2] with colon := true, at_ := false, argPos := 3, len_c_args := 3 } = 1 := by decide
 
 /-- and when the code raises an error the model rejects the directive too -/
 theorem move_code_error_is_a_model_error (T : EnglishTables) (vs : List PVal) (colon atm : Bool) (st : St)
@@ -405,6 +414,12 @@ theorem plural_code_is_the_model (T : EnglishTables) (colon atm : Bool) (st : St
           cases atm <;> simp [i, dirP_err, dirP_argPos, dirP_out, St.emit, hnl, hnn, h1, hno', hpos] <;> omega
     · have hp0 : st.pos = 0 := by omega
       simp [i, dirP_err, hp, hp0]
+
+/-- the hypothesis about `ok`/`n` is satisfiable (the argument 1 is a fixnum with value 1), and the translated
+    code writes `ies` for ~@P of 2 -/
+example : ∀ x, ([Arg.int 1] : List Arg)[(0 : Nat)]? = some x → ((true = true ∧ (1 : Int) = 1) ↔ x = .int 1) := by
+  intro x h; simp at h; subst h; simp
+example : dirP_out { at_ := true, argPos := 0, len_c_args := 1, ok := true, n := 2, out := [120] } = [120, 105, 101, 115] := by decide
 
 /-! ## ~% ~~ ~| ~& -/
 
@@ -609,6 +624,12 @@ theorem as_padding_code_is_the_model (i : In) (mincol colinc minpad L : Nat) (hc
     rw [← hk, hi]
     push_cast
     rfl
+
+/-- a concrete run of the translated loop: mincol 7, colinc 3, minpad 1, a 2-character argument — the gap is 4,
+    fuel 5, two rounds, 7 padding characters (the hypotheses of the theorem hold for this input record) -/
+example : dirAS_loop1 { p_0 := 7, p_1 := 3, p_2 := 1, len_padchar := 1, len_c_args := 1, arg_is_slip_String := true, len_ta := 2 } 5 [1] = some [7] := by decide
+example : let i : In := { p_0 := 7, p_1 := 3, p_2 := 1, len_padchar := 1, len_c_args := 1, arg_is_slip_String := true, len_ta := 2 }
+    dirAS_outlen i = 2 ∧ dirAS_padlen i = 7 ∧ dirAS_loopsok i = true := by decide
 
 /-- … which is the padding `padAS` writes: the text it returns is that much longer than the argument's -/
 theorem as_padding_code_is_padAS (i : In) (mincol colinc minpad pad : Nat) (atm : Bool) (s t : Txt)
